@@ -67,6 +67,10 @@ func t3Body(s HarnessSpec) (func(x *gosym.Exec), error) {
 		return gosym.T3Float32Range(p), nil
 	case "intrange":
 		return gosym.T3IntRange(p, s.T3Bits, s.T3Signed, s.T3Native), nil
+	case "structsyntax":
+		return gosym.T3StructSyntax(p), nil
+	case "mapkey":
+		return gosym.T3MapKeyRange(p, "map_key_u32", s.T3Bits, s.T3Native), nil
 	case "array":
 		return gosym.T3ArrayDecode(p, s.T3Bits), nil
 	case "encbuf":
